@@ -794,6 +794,12 @@ class FactoryRun:
                 try:
                     await run.spawn(late, "task-at-its-end", ctx)
                 except BaseException as e:
+                    if isinstance(e, RuntimeError) and run.going_down:
+                        # the application is already going down (another task's exception was not swallowed) and the factory
+                        # refused the spawn: the statement fixes no outcome for that, and this task just ends
+                        run.log("spawn-failed", late["tid"], exc=describe_exc(e), after_fatal=True)
+                        run.log("task-end", tid, how="return")
+                        return
                     run.log("task-end", tid, how="cancelled" if is_cancellation(e) else describe_exc(e))
                     raise
             if spec["outcome"] == "raise":
